@@ -1216,6 +1216,15 @@ class RoutingParameter:
     path_template: str
 
     @property
+    def regex_literal(self) -> str:
+        """Python source of the compiled pattern.
+
+        ``repr()`` of a compiled pattern is cut after 200 characters, so it
+        cannot be pasted into generated code.
+        """
+        return "re.compile({!r})".format(self.to_regex().pattern)
+
+    @property
     def disambiguated_field(self) -> str:
         """The attribute path of `field` on the request object."""
         return FieldHeader(self.field).disambiguated
